@@ -47,12 +47,61 @@ fn oracle_bytes(ctx: &mut Ctx, b: &[u8; 6], all: &[Track]) {
     }
 }
 
+/// (a base frame, the offset of the 6-byte track field) for every packet kind that has one
+fn track_fields(ls: &crate::pkt::Layouts, compressed: bool) -> Vec<(Vec<u8>, usize)> {
+    use crate::pkt::*;
+    let mut out = vec![];
+    for l in ls.kinds.iter() {
+        let fields = l["fields"].as_array().cloned().unwrap_or_default();
+        if !fields.iter().any(|f| f["ty"]["id"] == "Track") { continue; }
+        let base = gen_frame(&mut Rng::new(7), l, compressed, &GenOpts { wild: 0, text: 0, count: Some(1) });
+        let mut off = 2usize;
+        for f in &fields {
+            off += f["rb"].as_u64().unwrap_or(0) as usize;
+            if f["ty"]["id"] == "Track" && off + 6 <= base.len() { out.push((base.clone(), off)); }
+            off += ty_size(&f["ty"]) + f["ra"].as_u64().unwrap_or(0) as usize;
+        }
+    }
+    out
+}
+
+/// the same rules where a track name actually travels: whatever the bare codec says about the six bytes (a configuration
+/// or an error) is what the packet says, and the bytes come back unchanged
+fn in_packet_case(ctx: &mut Ctx, compressed: bool, frame: &[u8], off: usize) {
+    use crate::pkt::*;
+    let w = frame[off..off + 6].to_vec();
+    let op = format!("pkt.rt {}", frame_text(compressed, frame));
+    ctx.oracle_eval("track-in-packet");
+    match (read_trk(&w), real_decode(compressed, frame)) {
+        (Some(Err(())), Dec::Pkt(p, _)) => ctx.violation("c14/in-packet/error-swallowed", "six bytes that are no configuration's wire form are accepted inside a packet", &op, "a decode error", &truncate(&serde_json::to_string(&p).unwrap_or_default(), 160)),
+        (Some(Ok(t)), Dec::Pkt(p, _)) => {
+            let want = serde_json::to_value(&t).unwrap();
+            fn find(x: &serde_json::Value, want: &serde_json::Value) -> bool {
+                if x == want { return true; }
+                match x { serde_json::Value::Object(m) => m.values().any(|y| find(y, want)), serde_json::Value::Array(a) => a.iter().any(|y| find(y, want)), _ => false }
+            }
+            let got = serde_json::to_value(&p).unwrap();
+            if !find(&got, &want) { ctx.violation("c14/in-packet/different-track", "inside a packet the six bytes decode to another configuration", &op, &want.to_string(), &truncate(&got.to_string(), 160)); }
+            match real_encode(compressed, &p) {
+                Some(Ok(e)) if e.len() >= off + 6 && e[off..off + 6] == w[..] => {},
+                Some(Ok(e)) => ctx.violation("c14/in-packet/reencode", "the track name does not re-encode to the identical 6 bytes inside its packet", &op, &hex(&w), &hex(&e[off.min(e.len())..(off + 6).min(e.len())])),
+                _ => {},
+            }
+        },
+        (Some(Ok(_)), Dec::ErrDecode(_)) => ctx.violation("c14/in-packet/rejected", "a configuration's wire form is rejected inside a packet", &op, "a packet", "decode error"),
+        (_, Dec::Panic) | (None, _) => ctx.violation("c14/in-packet/panic", "decoding the track name panicked", &op, "value or error", "panic"),
+        _ => {},
+    }
+}
+
 pub fn run(ctx: &mut Ctx) {
     let all = tracks();
     if let Some(lines) = ctx.replay.clone() {
+        let ls = crate::pkt::load_layouts();
         for l in lines {
             let w: Vec<&str> = l.split_whitespace().collect();
             match w.as_slice() {
+                ["pkt.rt", m, h] => { let f = unhex(h); for (b, off) in track_fields(&ls, *m == "c") { if b.get(1) == f.get(1) && off + 6 <= f.len() { in_packet_case(ctx, *m == "c", &f, off); } } },
                 ["trk.dec", h] => {
                     let b = unhex(h);
                     ctx.case(&l, &dec_line(&b));
@@ -71,6 +120,24 @@ pub fn run(ctx: &mut Ctx) {
         row_oracle(ctx, t, &all);
     }
     ctx.exhaustive_domains.push(format!("all {} declared configurations: wire, decode(wire), code, flags, distance, licence", all.len()));
+    // inside packets: every kind with a track field x {every configuration, near misses, unknown names}
+    {
+        let ls = crate::pkt::load_layouts();
+        for compressed in [true, false] {
+            for (base, off) in track_fields(&ls, compressed) {
+                let mut names: Vec<Vec<u8>> = crate::pkt::all_track_codes().iter().map(|c| c.as_bytes().to_vec()).collect();
+                for u in ["ZZ9", "BL9", "AS1Z", "bl1", "RO10XX", "RO12", "KY3Z", "WE3Y", ""] { names.push(u.as_bytes().to_vec()); }
+                names.push(b"BL1\0\0\x01".to_vec());
+                for n in names {
+                    let mut w = n.clone(); w.resize(6, 0);
+                    let mut f = base.clone();
+                    f[off..off + 6].copy_from_slice(&w);
+                    in_packet_case(ctx, compressed, &f, off);
+                }
+            }
+        }
+        ctx.exhaustive_domains.push("every packet kind with a track field x {every declared configuration, 10 near misses} x both size modes".into());
+    }
     // shaped space [A-Z]{2}[0-9]{1,2}[A-Z]? NUL-padded, plus near misses
     let letters: Vec<u8> = (b'A'..=b'Z').collect();
     let digits: Vec<u8> = (b'0'..=b'9').collect();
